@@ -529,7 +529,9 @@ class InterpolatableFunction(ABC):
         ## Only the out-of-range points are differentiated here, each side
         ## separately and with one-sided stencils that do not reach into the table.
         ## evaluate() is used for the stencil points so that every one of them gets
-        ## a value even if an adaptive update moves the table range meanwhile.
+        ## a value even if an adaptive update moves the table range meanwhile. It has
+        ## to be this class's array-valued evaluate(): subclasses may override
+        ## evaluate() to repackage the result (FreeEnergy does).
         if xEvaluateRegion.size > 0:
             outOfBoundsResults = np.empty(
                 xEvaluateRegion.shape + tuple(fxShape[x.ndim:])
@@ -541,7 +543,7 @@ class InterpolatableFunction(ABC):
             ):
                 if np.any(side):
                     outOfBoundsResults[side] = helpers.derivative(
-                        self.evaluate,
+                        lambda points: InterpolatableFunction.evaluate(self, points),
                         xEvaluateRegion[side],
                         n=order,
                         bounds=bounds,
